@@ -180,6 +180,34 @@ func checkIsolation(c *c10Case) (key, msg string, stats map[string]int) {
 						}
 					}
 				}
+				// the known attribution defect exactly? Then the file, linted with the project of an
+				// enclosing repository forced, gives what the together-run gave
+				for _, r := range c.Repos {
+					for _, r2 := range c.Repos {
+						if !strings.HasPrefix(r2, r+"/") || !strings.HasPrefix(c.Args[i], r2+"/") {
+							continue
+						}
+						func() {
+							defer func() { recover() }()
+							proj, perr := al.NewProject(filepath.Join(w.Root, r))
+							if perr != nil || proj == nil {
+								return
+							}
+							l, _ := al.NewLinter(&bytes.Buffer{}, &al.LinterOptions{WorkingDir: cwd, IgnorePatterns: c.Ignore})
+							errs, err := l.LintFile(spellPath(i), proj)
+							if err != nil {
+								return
+							}
+							var forced []string
+							for _, e := range errs {
+								forced = append(forced, fmt.Sprintf("%d:%d [%s] %s", e.Line, e.Column, e.Kind, e.Message))
+							}
+							if strings.Join(forced, "\n") == strings.Join(together[k], "\n") {
+								key = "C10/file-of-nested-repository-attributed-to-the-enclosing-repository"
+							}
+						}()
+					}
+				}
 				return key, fmt.Sprintf("file %s (repetition %d)\nonly when linted alone: %v\nonly when linted together: %v\n%s", c.Args[i], rep, onlyAlone, onlyTogether, c10Show(c)), stats
 			}
 			delete(together, k)
